@@ -148,7 +148,18 @@ func TestC02(t *testing.T) {
 		hk := hx(hh[:6])
 		keys := []*hello.Key{sc.Key}
 		withDebug = rapid.Bool().Draw(t, "with_debug")
-		defer func() { withDebug = false }()
+		defer func() { withDebug, debugHook = false, nil }()
+		if withDebug && rapid.Bool().Draw(t, "other_connection_from_debug_callback") {
+			// while one hello is being examined the server takes in another connection
+			// carrying the authentic hello: connections share nothing
+			debugHook = func() {
+				guard(func() error {
+					newConn(context.Background(), wire.New(sc.Record, io.EOF), echKeys(sc.Key))
+					return nil
+				})
+			}
+			rec.Class("authentic_hello_on_another_connection_meanwhile")
+		}
 		// positive control
 		checkAcceptedExact(t, "C02", sc, wire.New(sc.Record, io.EOF), keys)
 		if _, err := hello.ReferenceOpen(sc.Key, sc.OuterMsg); err != nil {
